@@ -207,6 +207,7 @@ func (m *Machine) Explore(pkgPath, fnName string, solver *smt.Solver, o ExploreO
 	t0 := time.Now()
 	s0 := solver.Time
 	q0s, q0u, q0k := solver.NSat, solver.NUnsat, solver.NUnknown
+	q0f := solver.NFresh
 	ex = newExplorer(solver)
 	ex.Entry = pkgPath + "." + fnName
 	if o.MaxConc > 0 {
@@ -251,6 +252,7 @@ func (m *Machine) Explore(pkgPath, fnName string, solver *smt.Solver, o ExploreO
 	}
 	journalOn = false
 	ex.Stats.QSat, ex.Stats.QUnsat, ex.Stats.QUnknown = solver.NSat-q0s, solver.NUnsat-q0u, solver.NUnknown-q0k
+	ex.Stats.QFresh = solver.NFresh - q0f
 	pend := res.Pending
 	res = Result{Pending: pend, Entry: ex.Entry, Stats: ex.Stats, Findings: ex.Findings, Witnesses: ex.Witnesses, Samples: ex.Samples, Complete: complete && ex.Stats.Inconclusive == 0,
 		WallS: time.Since(t0).Seconds(), SolverS: (solver.Time - s0).Seconds()}
